@@ -209,6 +209,24 @@ def run(out, tier, model_ok=True):
       kb, b = ka, construct_real(dict(ka))[1]
     mutated = None
     if rng.random() < 0.3:
+      # the same values spelled with another numeric type (2 vs 2.0, (1, 5) vs (1.0, 5.0), 0.0 vs -0.0)
+      def respell(v):
+        if isinstance(v, bool):
+          return v
+        if isinstance(v, int):
+          return float(v) if abs(v) < 2 ** 53 else v
+        if isinstance(v, float) and v == 0.0:
+          return -0.0
+        if isinstance(v, float) and v.is_integer() and abs(v) < 1e15:
+          return int(v)
+        if isinstance(v, tuple):
+          return tuple(respell(x) for x in v)
+        return v
+      kb = {k: respell(v) for k, v in ka.items()}
+      b = construct_real(dict(kb))[1]
+      if b is None:
+        kb, b = ka, construct_real(dict(ka))[1]
+    elif rng.random() < 0.3:
       # equality is about the values the fields hold now: re-assign a field after construction
       b = construct_real(dict(kb))[1]
       mutated = rng.choice([('n_test', 28), ('n_designs', 4), ('iroas', 2.5), ('budget_range', (1.0, 9.0)), ('sig_level', 0.85)])
